@@ -654,7 +654,7 @@ def apply_adt_moves(facts):
     new = [n for n in have if n not in vocab]
     ren = {}
     for m in missing:
-        cs = [n for n in new if n.split('::')[-1] == m.split('::')[-1] and adt_shape(have[n]) == vocab[m] and n.split('::')[0] == m.split('::')[0]]
+        cs = [n for n in new if n.split('::')[-1] == m.split('::')[-1] and adt_shape(have[n]) == vocab[m]]
         if len(cs) == 1 and len([m2 for m2 in missing if m2.split('::')[-1] == m.split('::')[-1]]) == 1:
             ren[cs[0]] = m
     if not ren:
